@@ -1,5 +1,6 @@
 import UnytModel.Driver
 import UnytModel.Ops.C17
+import UnytModel.Ops.C17Factor
 open Unyt
 
-def main : IO Unit := runDriver (baseHandlers ++ [opsC17])
+def main : IO Unit := runDriver (baseHandlers ++ [opsC17, opsC17Factor])
